@@ -110,7 +110,7 @@ def generic_iterparse(fp: IOType,
             else:
                 yield event, node
 
-    except SyntaxError as err:
+    except (SyntaxError, LookupError, ValueError) as err:  # unknown or unusable encoding
         raise XMLResourceParseError("invalid XML syntax: {}".format(err)) from err
 
 
